@@ -174,6 +174,25 @@ def selftest_on_scratch(prop, mod):
             "problems": [r for r in rows if not r["ok"]], "rows": rows}
 
 
+def alpha_rename_invariance(prop, mod, ctx, cfg):
+    """Metamorphic self-test of the rules: the same fact base with every source-level variable name (locals, parameters,
+    captures) consistently replaced must give the same verdict for every obligation - a wholesale rename of variables
+    changes no behaviour, so a verdict that moves is a rule reading a name (false alarm in waiting, or a blind spot)."""
+    base = {(o.rule, o.instance): o.ok for o in ctx.obs if o.cfg == cfg}
+    factsmod.ALPHA_RENAME = True
+    try:
+        c2 = Ctx(prop, "quick", repo=ctx.repo)
+        c2.cfg = cfg
+        mod.run(c2)
+    finally:
+        factsmod.ALPHA_RENAME = False
+    moved = sorted(f"{o.rule}|{o.instance}" for o in c2.obs if (o.rule, o.instance) in base and base[(o.rule, o.instance)] != o.ok)
+    for m in moved:
+        print(f"[selftest] {prop} alpha-rename: verdict of {m} depends on a variable name", file=sys.stderr)
+    return {"config": cfg, "obligations_compared": sum(1 for o in c2.obs if (o.rule, o.instance) in base), "obligations_renamed_run": len(c2.obs),
+            "verdicts_changed": moved}
+
+
 def run_property(prop, tier, seed=0):
     t0 = time.time()
     mod = importlib.import_module(f"rules.{prop}")
@@ -191,6 +210,7 @@ def run_property(prop, tier, seed=0):
             mod.run_thorough(ctx)
         if tier == "thorough" and os.environ.get("VERIF_SELFTEST", "1") != "0":
             ctx.selftest = selftest_on_scratch(prop, mod)
+            ctx.selftest["alpha_rename"] = alpha_rename_invariance(prop, mod, ctx, cfgs[0])
     except extract.ExtractError as e:
         fatal = f"fact extraction failed: {e}"
     except Exception:
